@@ -116,6 +116,8 @@ pub struct ExecOpts {
 
 pub struct ExecOut {
     pub ops: Vec<Op>,
+    /// number of invocations of the payload's Clone impl
+    pub clones: u32,
     /// destructor-side calls that the payload issued on its own (position, call)
     pub inline: Vec<(u32, Vec<Op>)>,
     pub dtors: Vec<DtorSnap>,
@@ -132,8 +134,9 @@ static LOG_TRACE: std::sync::atomic::AtomicBool = std::sync::atomic::AtomicBool:
 fn ctx_head(profile: &str, seed: u64, run: u64, exec_i: u64, layouts: &[u64], faults: &Faults) -> String {
     let l: Vec<String> = layouts.iter().map(|x| x.to_string()).collect();
     let lt = LOG_TRACE.load(Relaxed) as u8;
+    let build = if cfg!(debug_assertions) { "checked" } else { "relnd" };
     format!(
-        "{{\"type\":\"violation\",\"profile\":\"{profile}\",\"seed\":{seed},\"run\":{run},\"exec\":{exec_i},\"log_trace\":{lt},\"layouts\":[{}],\"faults\":\"{}\",\"ops\":\"",
+        "{{\"type\":\"violation\",\"profile\":\"{profile}\",\"seed\":{seed},\"run\":{run},\"exec\":{exec_i},\"build\":\"{build}\",\"log_trace\":{lt},\"layouts\":[{}],\"faults\":\"{}\",\"ops\":\"",
         l.join(","),
         json_escape(&faults.text())
     )
@@ -235,7 +238,7 @@ pub fn execute(head: &str, src: Source<'_>, faults: &Faults, layout_seed: u64, o
     for i in 0..NSTATS {
         delta[i] = after[i].wrapping_sub(before[i]);
     }
-    ExecOut { ops: issued, inline, dtors, call_digests, order_digest, digest, fired_panics, fired_scripts, delta }
+    ExecOut { ops: issued, clones: exec::x(|x| x.clone_counter), inline, dtors, call_digests, order_digest, digest, fired_panics, fired_scripts, delta }
 }
 
 fn note_case(profile: &str, out: &ExecOut, faults: &Faults, extra: u64) {
@@ -400,8 +403,8 @@ fn do_run(rc: &RunCfg<'_>, run: u64) {
             let mut scen: Vec<Faults> = vec![];
             for (k, d) in base.dtors.iter().enumerate() {
                 for j in 0..d.own_slots.len() {
-                    scen.push(Faults { panic_at: vec![], scripts: vec![(k as u32, vec![Op::SelfCloneSlot { idx: j as Id, d: 900_001 }])], inline: base.inline.clone() });
-                    scen.push(Faults { panic_at: vec![], scripts: vec![(k as u32, vec![Op::SelfDropSlot { idx: j as Id }])], inline: base.inline.clone() });
+                    scen.push(Faults { panic_at: vec![], scripts: vec![(k as u32, vec![Op::SelfCloneSlot { idx: j as Id, d: 900_001 }])], inline: base.inline.clone(), ..Faults::default() });
+                    scen.push(Faults { panic_at: vec![], scripts: vec![(k as u32, vec![Op::SelfDropSlot { idx: j as Id }])], inline: base.inline.clone(), ..Faults::default() });
                 }
             }
             for i in (1..scen.len()).rev() {
@@ -421,12 +424,20 @@ fn do_run(rc: &RunCfg<'_>, run: u64) {
             opts.record_dtors = false;
             let n = base.dtors.len() as u32;
             for k in 0..n {
-                let f = Faults { panic_at: vec![k], scripts: vec![], inline: base.inline.clone() };
+                let f = Faults { panic_at: vec![k], scripts: vec![], inline: base.inline.clone(), ..Faults::default() };
                 let head = ctx_head(p.name, rc.seed, run, 1 + k as u64, &[layout_seed], &f);
                 let o = execute(&head, Source::Explicit(&base.ops), &f, layout_seed, &opts);
                 if o.fired_panics > 0 && o.delta[St::steps as usize] > 0 {
                     st(St::p_panic_after_continue, 1);
                 }
+                note_case(p.name, &o, &f, 0);
+                run_digest = fnv(run_digest, o.digest);
+            }
+            // ... and a panic in every invocation of the value's Clone impl (make_mut)
+            for c in 0..base.clones {
+                let f = Faults { clone_panic_at: vec![c], inline: base.inline.clone(), ..Faults::default() };
+                let head = ctx_head(p.name, rc.seed, run, 1000 + c as u64, &[layout_seed], &f);
+                let o = execute(&head, Source::Explicit(&base.ops), &f, layout_seed, &opts);
                 note_case(p.name, &o, &f, 0);
                 run_digest = fnv(run_digest, o.digest);
             }
@@ -445,7 +456,7 @@ fn do_run(rc: &RunCfg<'_>, run: u64) {
             for k in 0..n {
                 let cands = script_candidates(&base.dtors[k], &mut fault_rng, &mut fresh);
                 for sc in cands.into_iter().take(per_pos) {
-                    let f = Faults { panic_at: vec![], scripts: vec![(k as u32, sc)], inline: base.inline.clone() };
+                    let f = Faults { panic_at: vec![], scripts: vec![(k as u32, sc)], inline: base.inline.clone(), ..Faults::default() };
                     let head = ctx_head(p.name, rc.seed, run, exec_i, &[layout_seed], &f);
                     exec_i += 1;
                     let o = execute(&head, Source::Explicit(&base.ops), &f, layout_seed, &opts);
@@ -480,7 +491,7 @@ fn do_run(rc: &RunCfg<'_>, run: u64) {
                         scripts.push((k2 as u32, s2.clone()));
                     }
                 }
-                let f = Faults { panic_at: vec![], scripts, inline: base.inline.clone() };
+                let f = Faults { panic_at: vec![], scripts, inline: base.inline.clone(), ..Faults::default() };
                 let head = ctx_head(p.name, rc.seed, run, exec_i, &[layout_seed], &f);
                 exec_i += 1;
                 let o = execute(&head, Source::Explicit(&base.ops), &f, layout_seed, &opts);
@@ -492,6 +503,42 @@ fn do_run(rc: &RunCfg<'_>, run: u64) {
     }
     if rc.digests {
         out(&format!("{{\"type\":\"digest\",\"run\":{run},\"d\":\"{run_digest:016x}\"}}\n"));
+    }
+}
+
+/// Wait for a child with a watchdog measured in the child's own CPU time (robust
+/// against a loaded machine): if it consumes `hang_ms` of CPU without moving the
+/// heartbeat in the shared region, the call it is in is not returning; it is killed.
+fn wait_watch(pid: i32, hang_ms: u64) -> (i32, bool) {
+    let cpu_ms = |pid: i32| -> u64 {
+        std::fs::read_to_string(format!("/proc/{pid}/stat"))
+            .ok()
+            .and_then(|t| {
+                let rest = t.rsplit_once(')')?.1.to_string();
+                let f: Vec<&str> = rest.split_whitespace().collect();
+                // after the command: state is f[0]; utime and stime are f[11], f[12] (ticks of 10 ms)
+                Some((f.get(11)?.parse::<u64>().ok()? + f.get(12)?.parse::<u64>().ok()?) * 10)
+            })
+            .unwrap_or(0)
+    };
+    let mut status = 0i32;
+    let (mut last_beat, mut cpu_at_beat) = (sh().heartbeat, cpu_ms(pid));
+    loop {
+        let r = unsafe { waitpid(pid, &mut status, 1) };
+        if r == pid {
+            return (status, false);
+        }
+        std::thread::sleep(std::time::Duration::from_millis(if cfg!(miri) { 1 } else { 2 }));
+        let b = sh().heartbeat;
+        let c = cpu_ms(pid);
+        if b != last_beat {
+            last_beat = b;
+            cpu_at_beat = c;
+        } else if c.saturating_sub(cpu_at_beat) > hang_ms {
+            unsafe { kill(pid, 9) };
+            unsafe { waitpid(pid, &mut status, 0) };
+            return (status, true);
+        }
     }
 }
 
@@ -557,8 +604,12 @@ fn c16_scenario(pname: &str, head: &str, ops: &[Op], f: &Faults, layout_seed: u6
         note_case(pname, &o, f, 0);
         unsafe { alloc::_exit(0) };
     }
-    let mut status = 0i32;
-    unsafe { waitpid(pid, &mut status, 0) };
+    let (status, hung) = wait_watch(pid, 6_000);
+    if hung {
+        sh().printed = 0;
+        report::emit_raw("hang", "call-did-not-return", "a call into the library did not return within the watchdog period", 0);
+        return false;
+    }
     let exited = status & 0x7f == 0;
     let code = (status >> 8) & 0xff;
     let sig = status & 0x7f;
@@ -757,6 +808,7 @@ fn batch(a: &Args) -> i32 {
     shared::init();
     sh().next_run = from;
     let mut restarts = 0u64;
+    let mut hangs = 0u64;
     let mut status_code = 0;
     loop {
         if sh().next_run >= to {
@@ -780,28 +832,10 @@ fn batch(a: &Args) -> i32 {
         }
         // wait with a watchdog: a library call that never returns (a trace that does not
         // terminate) must not hang the check; it is reported and the batch goes on
-        let mut status = 0i32;
-        let hang_ms = a.num("--hang-ms", 30_000);
-        let (mut last_beat, mut since) = (sh().heartbeat, std::time::Instant::now());
-        let mut hung = false;
-        loop {
-            let r = unsafe { waitpid(pid, &mut status, 1) };
-            if r == pid {
-                break;
-            }
-            std::thread::sleep(std::time::Duration::from_millis(20));
-            let b = sh().heartbeat;
-            if b != last_beat {
-                last_beat = b;
-                since = std::time::Instant::now();
-            } else if since.elapsed().as_millis() as u64 > hang_ms {
-                unsafe { kill(pid, 9) };
-                unsafe { waitpid(pid, &mut status, 0) };
-                hung = true;
-                break;
-            }
-        }
+        let hang_ms = a.num("--hang-ms", 6_000);
+        let (status, hung) = wait_watch(pid, hang_ms);
         if hung {
+            hangs += 1;
             sh().printed = 0;
             report::emit_raw("hang", "call-did-not-return", "a call into the library did not return within the watchdog period", 0);
         }
@@ -823,7 +857,8 @@ fn batch(a: &Args) -> i32 {
         restarts += 1;
         sh().stats[St::p_child_restarts as usize] += 1;
         sh().next_run = sh().cur_run + 1;
-        if restarts > a.num("--max-restarts", 1_000_000) {
+        if restarts > a.num("--max-restarts", 1_000_000) || hangs >= 3 {
+            // a tree on which calls keep hanging is reported; do not spend the budget waiting
             break;
         }
     }
@@ -959,8 +994,7 @@ fn dump(a: &Args) -> i32 {
             die("fork failed");
         }
         if pid > 0 {
-            let mut status = 0i32;
-            unsafe { waitpid(pid, &mut status, 0) };
+            let (status, _hung) = wait_watch(pid, 6_000);
             if status != 0 {
                 let c = &sh().ctx[..sh().ctx_len as usize];
                 let text = String::from_utf8_lossy(c).to_string();
